@@ -19,6 +19,7 @@ import (
 	"time"
 
 	kit "github.com/liftbridge-io/liftbridge/internal/verifkit"
+	"github.com/liftbridge-io/liftbridge/server/verifhook"
 )
 
 type c01Op struct {
@@ -699,7 +700,7 @@ func c01Content(seed uint64, o int64) vfRec {
 func TestVerifC01Concurrent(t *testing.T) {
 	rep := kit.NewReport("C01", "concurrent")
 	defer rep.Write()
-	rep.SetRule("concurrent runs under -race: 1 appender (batches 1..6), 1 goroutine calling checkAndPerformSplit, R uncommitted readers created at arbitrary offsets while the log grows; content is f(seed, offset) so each reader verifies every message; non-trivial = run rolled >=2 segments and readers crossed a boundary; distinct = (segment size, total, reader starts)")
+	rep.SetRule("concurrent runs under -race: 1 appender (batches 1..6), 1 goroutine calling checkAndPerformSplit, in every other run a goroutine calling Clean() in a loop with retention limits that never bind (half of the passes held open at hook clean.afterCleanSegments until the appender moved on, so segments are rolled inside a pass), R uncommitted readers created at arbitrary offsets while the log grows; content is f(seed, offset) so each reader verifies every message; non-trivial = run rolled >=2 segments and readers crossed a boundary; distinct = (segment size, total, reader starts)")
 	root := kit.NewRNG(kit.Mix(kit.Seed(), 0xC01C))
 	runs := kit.Scale(30, 200)
 	for i := 0; i < runs && rep.NumViolations() < 4; i++ {
@@ -708,21 +709,81 @@ func TestVerifC01Concurrent(t *testing.T) {
 		maxSeg := []int64{64, 300, 1500, 9000}[rng.Intn(4)]
 		total := int64(rng.Range(60, kit.Scale(400, 900)))
 		dir := vfTempDir("c01c")
-		l, err := vfOpen(vfOpts(dir, maxSeg))
+		// Every other run also has the log's cleaner at work: Clean() passes
+		// with retention limits that never bind (nothing may be removed), half
+		// of them held open between "segments cleaned" and "result installed"
+		// until the appender has moved on, so that segments are rolled INSIDE a
+		// pass and must be re-attached by it.
+		fail := func(fp, what string) {
+			rep.Violation(fp, what, map[string]any{"run": i, "maxSegmentBytes": maxSeg, "total": total, "content_seed": seed, "cleaner_passes_running": i%2 == 1})
+		}
+		withCleaner := i%2 == 1
+		opts := vfOpts(dir, maxSeg)
+		if withCleaner {
+			opts.MaxLogMessages = 1 << 40
+			opts.MaxLogBytes = 1 << 50
+		}
+		l, err := vfOpen(opts)
 		if err != nil {
 			rep.Violation("C01:open-error", err.Error(), nil)
 			continue
 		}
 		var appended atomic.Int64
+		var writerDone atomic.Bool
 		stop := make(chan struct{})
 		var wg sync.WaitGroup
-		fail := func(fp, what string) {
-			rep.Violation(fp, what, map[string]any{"run": i, "maxSegmentBytes": maxSeg, "total": total, "content_seed": seed})
+		if withCleaner {
+			var passes, widened atomic.Int64
+			hr := kit.NewRNG(seed ^ 7)
+			var hmu sync.Mutex
+			verifhook.Set(func(name string, args ...interface{}) error {
+				if name != "clean.afterCleanSegments" {
+					return nil
+				}
+				passes.Add(1)
+				hmu.Lock()
+				widen := hr.Bool()
+				hmu.Unlock()
+				if !widen {
+					return nil
+				}
+				// bounded wait (never part of a verdict): let the appender add
+				// enough for at least two rolls of the small segments
+				from := appended.Load()
+				for k := 0; k < 400 && !writerDone.Load() && appended.Load() < from+12; k++ {
+					time.Sleep(50 * time.Microsecond)
+				}
+				if appended.Load() >= from+12 {
+					widened.Add(1)
+				}
+				return nil
+			})
+			wg.Add(1)
+			go func() {
+				defer wg.Done()
+				defer func() {
+					rep.Count("concurrent_cleaner_passes", passes.Load())
+					rep.Count("concurrent_cleaner_passes_with_appends_inside", widened.Load())
+				}()
+				for {
+					select {
+					case <-stop:
+						return
+					default:
+					}
+					if err := l.Clean(); err != nil {
+						fail("C01:clean-error", fmt.Sprintf("Clean() with limits that never bind failed: %v", err))
+						return
+					}
+					time.Sleep(100 * time.Microsecond)
+				}
+			}()
 		}
 		// appender
 		wg.Add(1)
 		go func() {
 			defer wg.Done()
+			defer writerDone.Store(true)
 			r := kit.NewRNG(seed ^ 1)
 			for next := int64(0); next < total; {
 				n := int64(r.Range(1, 6))
@@ -834,6 +895,7 @@ func TestVerifC01Concurrent(t *testing.T) {
 		close(stop)
 		wg.Wait()
 		cancel()
+		verifhook.Set(nil)
 		nseg := len(l.Segments())
 		rep.Count("concurrent_segments", int64(nseg))
 		rep.Eval()
